@@ -60,11 +60,23 @@ def clause_tag(text):
 
 
 def run_unit(unit, outdir, rlimit=30, repo=None):
+    # R22: when Verus cannot find a VALUE that is a constant of the unit's source files, extract it and run again (at most 3 rounds)
+    extra = []
+    for _ in range(4):
+        res = run_unit_once(unit, outdir, rlimit, repo, tuple(extra))
+        missing = [m for m in re.findall(r"cannot find value `(\w+)` in this scope", res.get("undecided_reason", "")) if m not in extra]
+        if res["status"] != "undecided" or not missing:
+            return res
+        extra.extend(sorted(set(missing)))
+    return res
+
+
+def run_unit_once(unit, outdir, rlimit=30, repo=None, extra_consts=()):
     t0 = time.time()
     res = dict(unit=unit, status="undecided", functions={}, failures=[], undecided_reason="", assumptions=[], rewrites=[],
                checker_cmd="", wall_s=0.0, smt_ms=0, canaries_failed_as_expected=0)
     try:
-        rs, meta = extract.assemble(unit, outdir, repo or extract.REPO)
+        rs, meta = extract.assemble(unit, outdir, repo or extract.REPO, extra_consts)
     except extract.Lost as e:
         res["undecided_reason"] = "lost anchor: %s" % e
         res["wall_s"] = time.time() - t0
